@@ -3,7 +3,7 @@ import os, sys, random, json, itertools
 from fractions import Fraction
 import vlib
 
-LEAN_TARGETS = ['CvxVerif.Props.C15']
+LEAN_TARGETS = ['CvxVerif.Props.C15', 'CvxVerif.Props.C15More']
 MODEL_FILES = ['CvxVerif.Model.Dense', 'CvxVerif.Proofs.Dense']
 LEVEL = 'proof'
 TRUSTED = ['hand-written reference model lean/CvxVerif/Model/Dense.lean (column-major buffer, create_indexlist, matrix_subscr, '
@@ -64,6 +64,11 @@ class Gen:
         if k < 0.6:
             def b(): return None if r.random() < 0.3 else r.randint(-dim - 2, dim + 2)
             a, bb = b(), b()
+            if r.random() < 0.45:
+                # whole-axis slices in both directions (the shapes fast paths are written for)
+                a, bb, c = r.choice([(None, None, None), (None, None, 1), (None, None, -1), (None, None, -1), (-1, None, -1), (0, None, 1), (None, None, 2)])
+                tok = 's' + ';'.join('N' if v is None else str(v) for v in (a, bb, c))
+                return slice(a, bb, c), tok
             c = r.choice([None, 1, -1, 2, -2, 3, -3, 0] if r.random() < 0.9 else [None, 1])
             tok = 's' + ';'.join('N' if v is None else str(v) for v in (a, bb, c))
             return slice(a, bb, c), tok
@@ -107,6 +112,12 @@ def run_sequence(cvxopt, rng, nops, lines, obs):
             emit('get1 %s %s' % (nm, t), lambda: show_res(A[I], matrix))
         elif k < 0.36:
             I, ti = g.idx(A.size[0]); J, tj = g.idx(A.size[1])
+            if rng.random() < 0.2:
+                # both indices slices, each covering a whole axis or a contiguous range, in either direction: the block-copy cases
+                def sl(dim):
+                    a, b, c = rng.choice([(None, None, None), (None, None, -1), (-1, None, -1), (None, None, 1), (0, dim, 1), (1, None, 1), (None, None, 2)])
+                    return slice(a, b, c), 's' + ';'.join('N' if v is None else str(v) for v in (a, b, c))
+                (I, ti), (J, tj) = sl(A.size[0]), sl(A.size[1])
             emit('get2 %s %s %s' % (nm, ti, tj), lambda: show_res(A[I, J], matrix))
         elif k < 0.48:
             I, t = g.idx(len(A)); v, tv = opd()
